@@ -56,7 +56,9 @@ type env struct {
 	wipe    func()                            // removes all controller pairings
 	accLTPK []byte
 	shut    func()
-	wire    bool // wire level: a dropped connection is visible as such
+	addr    string // wire level: the accessory's address
+	shutCl  func() // wire level: closes a connection opened later
+	wire    bool   // wire level: a dropped connection is visible as such
 	dead    bool // the accessory announced "Connection: close" or closed the connection after a response
 	ctrl    *refctl.Controller
 	srp     *refctl.SRPClient   // after setup M2/M4
@@ -115,7 +117,7 @@ func newEnvWire(prefix string, seed []byte) (*env, error) {
 		return nil, fmt.Errorf("INFRA: %v", err)
 	}
 	cl.Timeout = 30 * time.Second
-	e.tr = cl
+	e.tr, e.addr = cl, acc.Addr
 	e.newConn = func() (refctl.Transport, func()) {
 		c, err := refctl.Dial(acc.Addr)
 		if err != nil {
@@ -210,7 +212,12 @@ func (e *env) drive(seed []byte, saveCtrl func()) error {
 	return nil
 }
 
-func (e *env) close() { e.shut() }
+func (e *env) close() {
+	if e.shutCl != nil {
+		e.shutCl()
+	}
+	e.shut()
+}
 
 // honestNext returns the honest next pairing message for the state, for structure-aware mutation.
 func (e *env) honestNext(setup bool) []byte {
@@ -377,10 +384,16 @@ func genHostile(t *rapid.T, e *env) hostile {
 	case "query":
 		return hostile{"GET", "/characteristics" + sub(rapid.SampledFrom(queries).Draw(t, "q")), "", nil, "query"}
 	case "pairings":
-		method := rapid.SampledFrom([]byte{0, 1, 2, 3, 4, 5, 6, 9, 255}).Draw(t, "pm")
+		method := rapid.SampledFrom([]byte{0, 1, 2, 3, 3, 4, 4, 5, 6, 9, 255}).Draw(t, "pm")
+		longID := ""
 		items := []refctl.Item{{Tag: refctl.TagState, Value: []byte{1}}, {Tag: refctl.TagMethod, Value: []byte{method}}}
 		if rapid.Bool().Draw(t, "withid") {
-			items = append(items, refctl.Item{Tag: refctl.TagIdentifier, Value: rapid.SliceOfN(rapid.Byte(), 0, 70).Draw(t, "id")})
+			// mostly identifier-sized, sometimes far longer than any file name the storage can create
+			id := rapid.OneOf(rapid.SliceOfN(rapid.Byte(), 0, 70), rapid.SliceOfN(rapid.Byte(), 100, 300), rapid.SliceOfN(rapid.ByteRange('a', 'z'), 100, 600)).Draw(t, "id")
+			items = append(items, refctl.Item{Tag: refctl.TagIdentifier, Value: id})
+			if len(id) >= 100 {
+				longID = "-long-id"
+			}
 		}
 		if rapid.Bool().Draw(t, "withkey") {
 			items = append(items, refctl.Item{Tag: refctl.TagPublicKey, Value: rapid.SliceOfN(rapid.Byte(), 0, 40).Draw(t, "key")})
@@ -388,7 +401,7 @@ func genHostile(t *rapid.T, e *env) hostile {
 		if rapid.Bool().Draw(t, "withperm") {
 			items = append(items, refctl.Item{Tag: refctl.TagPermissions, Value: []byte{rapid.Byte().Draw(t, "perm")}})
 		}
-		return hostile{"POST", "/pairings", refctl.ContentTLV8, refctl.EncodeTLV8(items), fmt.Sprintf("pairings-method-%d", method)}
+		return hostile{"POST", "/pairings", refctl.ContentTLV8, refctl.EncodeTLV8(items), fmt.Sprintf("pairings-method-%d%s", method, longID)}
 	case "method":
 		m := rapid.SampledFrom([]string{"GET", "PUT", "POST", "DELETE", "HEAD", "OPTIONS", "PATCH", "BREW"}).Draw(t, "method")
 		p := rapid.SampledFrom([]string{"/pair-setup", "/pair-verify", "/pairings", "/characteristics", "/accessories", "/identify", "/resource", "/", "/nothing"}).Draw(t, "path")
@@ -486,7 +499,11 @@ func deliver(e *env, h hostile) error {
 		// raw space or control character in the request target is answered by net/http before any handler runs
 		path = strings.NewReplacer(" ", "%20", "\t", "%09", "\r", "%0D", "\n", "%0A", "\x00", "%00").Replace(path)
 	}
+	panicsBefore, _ := fixture.ServerPanics()
 	r, err := e.tr.Do(h.Method, path, h.CType, h.Body)
+	if n, last := fixture.ServerPanics(); e.wire && n > panicsBefore {
+		return fmt.Errorf("handler panicked (reported by net/http): %s", last)
+	}
 	if err != nil {
 		if pe, ok := err.(*fixture.PanicError); ok {
 			return fmt.Errorf("handler panicked: %v", pe.Value)
@@ -588,6 +605,7 @@ func TestC13Regress(t *testing.T) {
 		{"pair-verify M3 with a wrong auth tag", "verify-after-M2", hostile{"POST", "/pair-verify", refctl.ContentTLV8, short(3, 50), "wrong-tag"}},
 		{"pair-setup M5 without encrypted data", "setup-after-M4", hostile{"POST", "/pair-setup", refctl.ContentTLV8, refctl.EncodeTLV8([]refctl.Item{{Tag: refctl.TagState, Value: []byte{5}}}), "absent"}},
 		{"/pairings add with an empty body", "verified", hostile{"POST", "/pairings", refctl.ContentTLV8, []byte{}, "empty"}},
+		{"/pairings add with a 200-byte identifier", "verified", hostile{"POST", "/pairings", refctl.ContentTLV8, refctl.EncodeTLV8([]refctl.Item{{Tag: refctl.TagState, Value: []byte{1}}, {Tag: refctl.TagMethod, Value: []byte{3}}, {Tag: refctl.TagIdentifier, Value: bytes.Repeat([]byte("i"), 200)}, {Tag: refctl.TagPublicKey, Value: bytes.Repeat([]byte{7}, 32)}, {Tag: refctl.TagPermissions, Value: []byte{0}}}), "long-id"}},
 		{"PUT /characteristics with an object value twice", "verified", hostile{"PUT", "/characteristics", refctl.ContentJSON, []byte(`{"characteristics":[{"aid":2,"iid":9,"value":{"a":[1]}},{"aid":2,"iid":9,"value":{"a":[1]}}]}`), "json"}},
 	}
 	for i, c := range cases {
@@ -661,6 +679,71 @@ func TestC13Wire(t *testing.T) {
 			if err := e.recovery(seed); err != nil {
 				t.Fatalf("wire level, state %s after %v: %v", prefix, hs, err)
 			}
+		}
+	})
+}
+
+// TestC13Reuse: a peer resets its connection and connects again at once from the same source address
+// and port (every NAT and every restarted controller does this now and then). The accessory's per-connection
+// bookkeeping is keyed by the remote address, and the old connection is still being torn down while the new
+// one is accepted. Whatever the interleaving, the first request on the new connection must be answered with a
+// well-formed response and no handler may panic.
+func TestC13Reuse(t *testing.T) {
+	rapid.Check(t, func(t *rapid.T) {
+		prefix := rapid.SampledFrom([]string{"fresh", "verify-after-M2", "verified"}).Draw(t, "prefix")
+		seed := rapid.SliceOfN(rapid.Byte(), 16, 16).Draw(t, "seed")
+		e, err := newEnvWire(prefix, seed)
+		if err != nil {
+			t.Skipf("%v", err)
+		}
+		defer e.close()
+		rounds := rapid.IntRange(2, 6).Draw(t, "rounds")
+		kinds := rapid.SliceOfN(rapid.SampledFrom([]string{"verify-start", "setup-start", "get", "accessories", "hostile"}), rounds, rounds).Draw(t, "first-requests")
+		stats.Case(stats.Hash("reuse", prefix, seed, kinds), true, []string{"wire-source-address-reuse", "wire-state:" + prefix}, func() interface{} {
+			return map[string]interface{}{"level": "wire", "state": prefix, "reconnects_from_same_port": rounds, "first_requests": kinds}
+		})
+		cl := e.tr.(*refctl.Client)
+		reused := 0
+		for i := 0; i < rounds; i++ {
+			port := cl.LocalPort()
+			cl.Reset()
+			ncl, derr := refctl.DialFrom(e.addr, port)
+			if derr != nil {
+				// the port was not free yet: nothing to judge in this round
+				if ncl, derr = refctl.Dial(e.addr); derr != nil {
+					t.Skipf("INFRA: %v", derr)
+				}
+			} else {
+				reused++
+			}
+			ncl.Timeout = 30 * time.Second
+			cl, e.tr, e.dead = ncl, ncl, false
+			e.shutCl = func() { ncl.Close() }
+			var h hostile
+			switch kinds[i] {
+			case "verify-start":
+				h = hostile{"POST", "/pair-verify", refctl.ContentTLV8, refctl.VerifyM1(refctl.NewVerifyState(append(seed, byte(i))).EphPublic), "honest-verify-start"}
+			case "setup-start":
+				h = hostile{"POST", "/pair-setup", refctl.ContentTLV8, refctl.SetupM1(0), "honest-setup-start"}
+			case "get":
+				h = hostile{"GET", fmt.Sprintf("/characteristics?id=%d.%d", e.tb.Bulb.ID, e.tb.Text.ID), "", nil, "get"}
+			case "accessories":
+				h = hostile{"GET", "/accessories", "", nil, "accessories"}
+			default:
+				h = genHostile(t, e)
+				if h.Method == "HEAD" {
+					h.Method = "DELETE"
+				}
+			}
+			if err := deliver(e, h); err != nil {
+				if strings.HasPrefix(err.Error(), "INFRA") {
+					t.Skipf("%v", err)
+				}
+				t.Fatalf("wire level, reconnect %d from the source port of a just-reset connection (state before: %s), first request %v: %v", i, prefix, h, err)
+			}
+		}
+		if reused > 0 {
+			stats.Count("wire-source-address-reused", reused)
 		}
 	})
 }
